@@ -31,7 +31,16 @@ var c16OutOfSubset = map[string]bool{"1e2": true, `"\/"`: true}
 // JSONRoot is the example parser as examples/json/json.go uses it (also used by C12, C14).
 func JSONRoot() parsley.Parser { return combinator.Sentence(text.Trim(json.NewParser())) }
 
+// One parser object serves up to c16Renew documents (a parser is meant to be reused; state it keeps between
+// parses is part of the case): the documents parsed before with the same object are recorded and replayed.
 var jsonRoot = JSONRoot()
+var c16Hist []string
+
+const c16Renew = 16
+
+func c16RenewParser() {
+	jsonRoot, c16Hist = JSONRoot(), nil
+}
 
 // stdDecode decodes with encoding/json (UseNumber); ok=false when the text is not exactly one JSON value.
 // truncated reports that the text is a proper prefix of a valid document.
@@ -120,8 +129,9 @@ func jsonEqual(a, b interface{}) bool {
 }
 
 type c16Case struct {
-	Doc       string `json:"document"` // Go-quoted
-	Placement int    `json:"file_placement,omitempty"`
+	Doc       string   `json:"document"` // Go-quoted
+	Placement int      `json:"file_placement,omitempty"`
+	History   []string `json:"documents_parsed_before_with_this_parser_object,omitempty"` // Go-quoted
 }
 
 type c16Verdict int
@@ -137,7 +147,11 @@ const (
 var c16Placement = 0
 
 func c16Text(res *explore.Result, doc string, verdict c16Verdict, want interface{}, why string, verbose bool) {
-	cs := c16Case{strconv.Quote(doc), c16Placement}
+	if len(c16Hist) >= c16Renew {
+		c16RenewParser()
+	}
+	cs := c16Case{strconv.Quote(doc), c16Placement, append([]string{}, c16Hist...)}
+	c16Hist = append(c16Hist, strconv.Quote(doc))
 	fs, _, r, _ := place(placements[c16Placement], "f", []byte(doc))
 	if c16Placement != 0 {
 		why += "; file " + placements[c16Placement].name
@@ -535,6 +549,15 @@ func c16Replay(raw stdjson.RawMessage) *explore.Result {
 	if c.Placement > 0 && c.Placement < len(placements) {
 		c16Placement = c.Placement
 	}
+	// bring a fresh parser object into the state it was in: parse the recorded documents first, in order
+	c16RenewParser()
+	for _, hq := range c.History {
+		if h, err := strconv.Unquote(hq); err == nil {
+			fs, _, r, _ := place(placements[c16Placement], "f", []byte(h))
+			guard(func() { _, _ = parsley.Evaluate(parsley.NewContext(fs, r), jsonRoot) })
+		}
+	}
+	c16Hist = append([]string{}, c.History...)
 	// re-derive the verdict the way the enumeration does when the document is a token string; otherwise valid => equal
 	want, ok, truncated, inSubset := stdDecode(doc)
 	if strings.Contains(doc, `\/`) || strings.Contains(doc, "1e2") {
